@@ -236,7 +236,9 @@ EFFECT_CALL = re.compile(r'\b(set_|push|insert|remove|delete|take|update|emit|se
 
 def _log_guard(env):
     a = env.get('A', '')
-    m = EFFECT_CALL.search(a)
+    # the guard is about effects of the ARGUMENT expressions: text inside string literals (the format string) is not code
+    code = ''.join(t.text if t.kind != 'str' else '""' for t in lex(a))
+    m = EFFECT_CALL.search(code)
     if m:
         return f'R2: log argument contains a call that is not a getter: `{m.group(0)}` in `{a[:80]}`'
     return None
